@@ -1,12 +1,13 @@
 #!/venv/bin/python
-"""Confirm seeded changes independently: in a scratch worktree of /repo, for each /tmp/seed-out/<id>/<A|B>:
+"""Confirm seeded changes independently: in a scratch worktree of /repo, for each $SEED_OUT/<id>/<variant>:
   tests pass with the patch; demo fails with the patch; demo passes without it.
-Writes /tmp/seed-out/confirm.json.  Usage: confirm_seeds.py [ids...]"""
+Writes $SEED_OUT/confirm.json.  Usage: confirm_seeds.py [ids...]"""
 import json, os, subprocess, sys, shutil
 from concurrent.futures import ThreadPoolExecutor
 from pathlib import Path
 
-SEEDS = Path("/tmp/seed-out")
+SEEDS = Path(os.environ.get("SEED_OUT", "/root/scratch/seed-out"))
+VARIANTS = os.environ.get("SEED_VARIANTS", "ABCD")
 ENV = dict(os.environ)
 ENV.pop("PYTHONDONTWRITEBYTECODE", None)
 
@@ -18,11 +19,11 @@ def sh(cmd, cwd=None, env=None, timeout=1500):
 
 def work(job):
     k, items = job
-    wt = f"/tmp/wt-confirm{k}"
+    wt = f"/root/scratch/wt-confirm{k}"
     sh(f"git -C /repo worktree remove --force {wt}")
     rc, out = sh(f"git -C /repo worktree add -q --detach {wt} HEAD")
     shutil.copy("/repo/src/stationeers_pytrapic/_version.py", f"{wt}/src/stationeers_pytrapic/_version.py")
-    env = dict(ENV, PYTHONPATH=f"{wt}/src", PYTHONPYCACHEPREFIX=f"/tmp/pyc-confirm{k}")
+    env = dict(ENV, PYTHONPATH=f"{wt}/src", PYTHONPYCACHEPREFIX=f"/root/scratch/pyc-confirm{k}")
     res = {}
     for sid, d in items:
         r = {}
@@ -50,7 +51,7 @@ def work(job):
         res[sid] = r
         print(sid, "confirmed" if r["confirmed"] else "NOT CONFIRMED", flush=True)
     sh(f"git -C /repo worktree remove --force {wt}")
-    shutil.rmtree(f"/tmp/pyc-confirm{k}", ignore_errors=True)
+    shutil.rmtree(f"/root/scratch/pyc-confirm{k}", ignore_errors=True)
     return res
 
 
@@ -58,7 +59,7 @@ def main():
     ids = sys.argv[1:] or sorted(p.name for p in SEEDS.iterdir() if p.is_dir() and p.name.startswith("C"))
     items = []
     for i in ids:
-        for v in "AB":
+        for v in VARIANTS:
             d = SEEDS / i / v
             if (d / "patch.diff").exists() and (d / "demo.py").exists():
                 items.append((f"{i}-{v}", str(d)))
